@@ -430,7 +430,10 @@ def renderEvs (ap : Bool) : Vis → List Ev → List String
     | .usedEvent x =>
       (if v.usedEvent = x then "nochange" else s.str) :: renderEvs ap { v with usedEvent := x } rest
 
-def outStr (q0 q : Q) (r : Res) (evs : List Ev) : String :=
+def outStr (q0 q : Q) (r : Res) (evs : List Ev) (nost : Bool := false) : String :=
+  -- `nost`: a hostile device scribbles over the driver-owned areas, so the snapshot-diffing
+  -- observer cannot be predicted; only platform events are compared then
+  let evs := if nost then evs.filter (fun e => match e with | .hal _ => true | .st _ => false) else evs
   let e := if evs.isEmpty then "-" else Proto.joinWith " " (renderEvs q.ap q0.vis evs)
   s!"{r.str} | {e} | {q.privStr}"
 
@@ -482,9 +485,9 @@ def handle (q : Q) (op : String) (a : Proto.Args) : Q × String :=
     (q', s!"{outStr q q' r evs} notify={Proto.b2s nt}")
   | "new" => let q' := Q.init (a.nat "n") (a.bool "ind") (a.bool "ev") (a.bool "ap"); (q', s!"ok | - | {q'.privStr}")
   | "add" =>
-    let (q', r, evs) := q.add (parseBufs (a.str "in")) (parseBufs (a.str "out")); (q', outStr q q' r evs)
+    let (q', r, evs) := q.add (parseBufs (a.str "in")) (parseBufs (a.str "out")); (q', outStr q q' r evs (a.bool "nost"))
   | "pop" =>
-    let (q', r, evs) := q.popUsed (a.nat "tok") (parseBufs (a.str "in")) (parseBufs (a.str "out")); (q', outStr q q' r evs)
+    let (q', r, evs) := q.popUsed (a.nat "tok") (parseBufs (a.str "in")) (parseBufs (a.str "out")); (q', outStr q q' r evs (a.bool "nost"))
   | "notify" => let (q', evs) := q.setDevNotify (a.bool "en"); (q', outStr q q' .unit evs)
   | "used" => let q' := q.devUsed (a.nat "id") (a.nat "len"); (q', outStr q q' .unit [])
   | "usedidx" => let q' := q.devSetUsedIdx (a.nat "v"); (q', outStr q q' .unit [])
